@@ -412,7 +412,7 @@ inline bool judge(const char* clause_name, double err, double tol, const std::fu
 	if(dbg >= 0 && ratio > dbg)
 	{
 		J j;
-		j.str("t", "debug").str("clause", clause_name).str("gen", cur().gen).i("index", (long long) cur().index).num("ratio", ratio).raw("observation", detail().obj());
+		j.str("t", "debug").str("clause", clause_name).str("gen", cur().gen).i("index", (long long) cur().index).num("ratio", ratio).raw("params", cur().params.empty() ? "{}" : cur().params).raw("observation", detail().obj());
 		emit(j.obj());
 	}
 	return true;
